@@ -224,6 +224,36 @@ def _run_map(desc):
                                  {"error": float(err[k]), "second_order_bound": float(bound[k]), "stretch_delta": float(dl[~mask][k])})
             sh.evaluations += nv
             sh.nontrivial += nv
+    # history: the UBI map of ONE TensorMap is replaced after strains were read; the strains must follow
+    shape = (1, 1, 6)
+    ubA = ubis[:6].reshape(shape + (3, 3)).copy()
+    ubB = ubis[30:36].reshape(shape + (3, 3)).copy()
+    phases = {0: ucm.unitcell(cell, "P")}
+    for setter in ("attribute", "item", "add_map"):
+        for first in (("eps_sample",), ("eps_crystal",), ("eps_sample", "eps_crystal"), ("U", "B"), ()):
+            T = tm.TensorMap(maps={"UBI": ubA.copy(), "phase_ids": np.zeros(shape, int)}, phases=phases)
+            with contextlib.redirect_stdout(io.StringIO()):
+                for nm in first:
+                    getattr(T, nm)
+                if setter == "attribute":
+                    T.UBI = ubB.copy()
+                elif setter == "item":
+                    T["UBI"] = ubB.copy()
+                else:
+                    T.add_map("UBI", ubB.copy())
+                got_s, got_c, got_U = T.eps_sample, T.eps_crystal, T.U
+                F = tm.TensorMap(maps={"UBI": ubB.copy(), "phase_ids": np.zeros(shape, int)}, phases=phases)
+                want_s = F.eps_sample
+                F2 = tm.TensorMap(maps={"UBI": ubB.copy(), "phase_ids": np.zeros(shape, int)}, phases=phases)
+                want_c, want_U = F2.eps_crystal, F2.U
+            c3 = {"kind": "map", "cell": cell, "shape": list(shape), "seed": seed_of(), "history": ["read " + "+".join(first), "set UBI via " + setter, "read strains"]}
+            if np.abs(got_U - want_U).max() > 1e-12:
+                sh.violation("TensorMap.U:stale-after-UBI-replaced", c3, {})
+            elif np.abs(got_s - want_s).max() > 6.0 * deltas[30:36].max() ** 2 + 1e-10 or np.abs(got_c - want_c).max() > 1e-10:
+                sh.violation("TensorMap.eps:stale-after-UBI-replaced", c3, {"max_diff_sample": float(np.abs(got_s - want_s).max()),
+                                                                           "max_diff_crystal": float(np.abs(got_c - want_c).max())})
+            sh.evaluations += 1
+            sh.nontrivial += 1
     sh.sample(case, limit=1)
     return sh
 
